@@ -482,6 +482,10 @@ func (p *projSpec) renderTarget(t *targetSpec) string {
 			args = append(args, fmt.Sprintf("RULES_%s.render()", t.Name))
 		case "fnkeys":
 			args = append(args, fmt.Sprintf("(len(FK_%s), len(FS_%s), fk_%s_a())", t.Name, t.Name, t.Name))
+		case "dag":
+			// a value with heavy sharing: 48 levels of [x, x] hold 2^48 paths to one leaf in 49
+			// lists; only its length is handed to the body (printing it would never end)
+			args = append(args, fmt.Sprintf("len(DAG_%s)", t.Name))
 		case "mutdefault":
 			params = append(params, "acc=[]")
 			pre = append(pre, "    acc.append(len(acc))")
@@ -520,6 +524,11 @@ func (p *projSpec) renderTarget(t *targetSpec) string {
 		if r := &t.Refs[i]; r.Kind == "twins" {
 			fmt.Fprintf(&sb, "def mk_%s(v, d = 0):\n    def inner(x = d):\n        return (v, x)\n    return inner\n\n", t.Name)
 			fmt.Fprintf(&sb, "TW_%s_a = mk_%s(%s)\nTW_%s_b = mk_%s(%s, d = %s)\n\n", t.Name, t.Name, r.Val.render(), t.Name, t.Name, r.Val.render(), r.Val2.render())
+		}
+	}
+	for i := range t.Refs {
+		if r := &t.Refs[i]; r.Kind == "dag" {
+			fmt.Fprintf(&sb, "def _mk_dag_%s():\n    x = [%s]\n    for _ in range(48):\n        x = [x, x]\n    return x\n\nDAG_%s = _mk_dag_%s()\n\n", t.Name, r.Val.render(), t.Name, t.Name)
 		}
 	}
 	for i := range t.Refs {
